@@ -72,10 +72,10 @@ def cases_batch(tier):
             for w in ws:
                 yield (w, body)
     if tier == "thorough":
-        sub = QUICK_ALPHA
-        for combo in itertools.product(sub, repeat=4):
+        for combo in itertools.product(idx, repeat=4):
             body = B.dumps([ALPHA[i] for i in combo])
-            for w in (WORLDS[0], WORLDS[6]):
+            ws = (WORLDS[0], WORLDS[6]) if all(i in QUICK_ALPHA for i in combo) else (WORLDS[(combo[0] + combo[3]) % len(WORLDS)],)
+            for w in ws:
                 yield (w, body)
 
 
@@ -92,7 +92,7 @@ LEGS = {"single": leg_single, "batch": leg_batch}
 META = {
     "technique": "bounded-exhaustive enumeration of request entries and batch compositions against a reference server model (type-exact id comparison)",
     "rule": "single: 8 entry kinds x 18 id values (incl. absent) x {1.0,2.0} form; batch: every sequence of length <=3 over a 24-entry alphabet "
-    "(thorough: plus length 4 over 14 entries) whose ids cover every JSON type; x server version {1.0,2.0} x dispatch in {default, "
+    "(thorough: plus length 4 over all 24 entries, one world each) whose ids cover every JSON type; x server version {1.0,2.0} x dispatch in {default, "
     "custom returning, custom raising, instance with raising _dispatch}; every case is non-trivial (each yields at least one id/count obligation)",
     "bounds": {"quick": {"batch_len": 3, "alphabet": 24}, "thorough": {"batch_len": 4, "alphabet": 24}},
     "assumptions": [
